@@ -41,6 +41,9 @@ func VerifC02_Rewrite() {
 	tgtColl, tgtPart := vI64("target.collectionID"), vI64("target.partitionID")
 	vAssume(vAnd(tgtPart != 0, tgtPart != -1)) // 0 / -1 are the lookup's "unknown" / "dropped" markers
 	w.info.CollectionID = tgtColl
+	if vBool("world.positionsNamePhysicalChannel") {
+		w.posCh = rSrcP
+	}
 	w.env.target.parts["p"] = tgtPart
 	if !w.lazyPart {
 		w.info.PartitionInfo["p"] = tgtPart
@@ -92,6 +95,9 @@ func VerifC02_Forward() {
 	w := c01NewWorld(false)
 	otherP := "tgt-dml_1"
 	w.info.PChannel, w.info.VChannel = otherP, otherP+"_900v0"
+	if vBool("world.positionsNamePhysicalChannel") {
+		w.posCh = rSrcP
+	}
 	other := rNewHandler("src-dml_1", otherP)
 	rInitTS(otherP, 18446744073709551615)
 	pack, ins := w.pack(vParam("M", 2), false)
